@@ -15,9 +15,14 @@ context is evaluated in two stages, as `build_decision_table_evaluator` does:
    values)`, the output values and the default output entries (unary tests).
 2. `finish` — the hit policy on the matrix of evaluated cells: the model of C03
    (`Dmn.DT.evaluate`, proved equal to `Dmn.DT.Spec.evaluate`).  C03 works on its own value
-   type `DTValue`; `toDT` / `ofDT` translate (integral numbers with a non-negative exponent,
+   type `DTValue`; `toDT` / `ofDT` translate (numbers as their exact decimal value `DNum`,
    strings, booleans, null, lists, contexts; anything else makes the answer `unsupported`,
-   which the correspondence skips).
+   which the correspondence skips).  `DNum` holds the *value* of a number, not its
+   representation: a number whose representation is not the normal form already (a fraction
+   written with trailing zeros, `1.10`) would come back from the table as `1.1`, which the
+   evaluator model can tell apart (`string(1.10)`); `toDT` answers `none` for it
+   (`DNum.reducedRep`), all other numbers — every integer, every fraction without trailing
+   zero — pass.
 
 A table is carried in `Ast` like the other boxed expressions: `Boxed.table`.
 -/
@@ -31,7 +36,7 @@ mutual
 def toDT : Value → Option DTValue
   | .null => some .null
   | .bool b => some (.bool b)
-  | .num d => if d.exp ≥ 0 then some (.num (d.scoeff * (10 : Int) ^ d.exp.toNat)) else none
+  | .num d => if DNum.reducedRep d then some (.num (DNum.ofDec d)) else none
   | .str s => some (.str s.toList)
   | .list vs => (toDTList vs).map .list
   | .ctx es => (toDTEntries es).map .ctx
@@ -51,11 +56,11 @@ def toDTEntries : List (String × Value) → Option (List (List Char × DTValue)
 end
 
 mutual
-/-- Back: an integer is the number with exponent 0. -/
+/-- Back: the number with exponent `-scale` (an integer: exponent 0). -/
 def ofDT : DTValue → Value
   | .null => .null
   | .bool b => .bool b
-  | .num n => .num ⟨decide (n < 0), n.natAbs, 0⟩
+  | .num n => .num n.toDec
   | .str s => .str (String.ofList s)
   | .atom _ _ => .null
   | .list xs => .list (ofDTList xs)
